@@ -66,6 +66,8 @@ def strategy(tier):
       # which calls of the underlying Close() (1st, 2nd, ...) raise: the transport is gone all the same
       'close_raises': st.sampled_from([[], [], [], [1], [2], [1, 2]]),
       'ops': sized_list(weighted((4, st.just(['open'])), (5, st.just(['close'])),
+                                 # what the shared sink reports about itself: a resurrector that is down and retrying says Closed
+                                 (2, st.tuples(st.just('state'), st.sampled_from(['closed', 'closed', 'open', 'busy'])).map(list)),
                                  (1, st.tuples(st.just('advance'), st.sampled_from([1, 10])).map(list))), 0, 40),
   })
   shared = st.fixed_dictionaries({
@@ -365,6 +367,7 @@ def _exec_refcount(plan):
   under.open_fails = bool(plan.get('open_fails'))      # every holder is then handed the same failed open result
   under.close_raises = tuple(plan.get('close_raises') or ())
   raised = [0]
+  states_seen = set()
 
   def do_close():
     try:
@@ -404,6 +407,9 @@ def _exec_refcount(plan):
         if count == 0:
           want_closes += 1
       gevent.spawn(do_close)
+    elif op[0] == 'state':
+      under._st = {'closed': ChannelState.Closed, 'open': ChannelState.Open, 'busy': ChannelState.Busy}[op[1]]
+      states_seen.add(op[1])
     else:
       advance(op[1] / 1000.0)
     settle()
@@ -432,7 +438,7 @@ def _exec_refcount(plan):
       raise Violation(ID, 'refcount-open-result', 'two holders of the same open connection got different open results %s' % where)
   nt = (['surplus close'] if surplus else []) + (['open during a slow close'] if slow else [])
   return Outcome(nontrivial=nt or None, classes=['refcount'] + (['surplus_close'] if surplus else []) + (['open_during_slow_close'] if slow else []) +
-                 (['underlying_close_raised'] if raised[0] else []))
+                 (['underlying_close_raised'] if raised[0] else []) + (['shared_sink_reported_closed'] if 'closed' in states_seen else []))
 
 
 class _KeyProvider(SinkProviderBase):
